@@ -207,6 +207,68 @@ def system_level(ctx: Ctx) -> None:
                 if not {0, 1} <= cycles[nm]:
                     ctx.report(f"runner-without-window[{kind}]:runners-with-workers", f"[{kind}] runner {nm} (with a worker process) executed the global services in cycles {sorted(cycles[nm])} only",
                                {"kind": "system-parents", "backend": kind, "runner": nm})
+            # ---- (d) the heartbeat write of one runner fails (a locked database): that runner is not authorised (its check fails or says
+            #      no) - and the OTHER runner's authorisation is not doubled by it; and (e) the configured margin, as the application
+            #      reads it from its configuration (a fraction of a minute), separates consecutive windows seen through the orchestrator
+            import sqlite3
+
+            app4 = make_app(kind, ctx.tmp, app_id=f"c12hbfault{kind}", atomic_service_interval_minutes=4.0, atomic_service_spread_margin_minutes=0.5,
+                            runner_considered_dead_after_minutes=10.0, atomic_service_check_interval_minutes=0.0)
+            o4 = app4.orchestrator
+            o4.register_runner_heartbeats(["rA"], can_run_atomic_service=True)
+            real_hb4 = o4.register_runner_heartbeats
+
+            def hb4(runner_ids, *a, **k):  # type: ignore[no-untyped-def]
+                if "rB" in runner_ids:
+                    raise sqlite3.OperationalError("database is locked")
+                return real_hb4(runner_ids, *a, **k)
+
+            o4.register_runner_heartbeats = hb4  # type: ignore[method-assign]
+            both_at = None
+            for step in range(0, 2 * 240, 5):
+                auth = []
+                for r in ("rA", "rB"):
+                    try:
+                        if o4.should_run_atomic_service(rctx(r)):
+                            auth.append(r)
+                    except Exception:  # noqa: BLE001
+                        pass
+                ctx.count()
+                if len(auth) > 1 and both_at is None:
+                    both_at = step
+                clock.advance(5_000_000)
+            del o4.register_runner_heartbeats
+            ctx.distinct((kind, "heartbeat-write-fails", both_at is None))
+            if both_at is not None:
+                ctx.report(f"two-authorised[{kind}]:heartbeat-write-fails", f"[{kind}] runner rB's heartbeat write fails with 'database is locked' (it has no record); rA is alive: at +{both_at} s BOTH are authorised",
+                           {"kind": "system-hb-fault", "backend": kind, "t": both_at})
+            # (e)
+            for r in ("rA", "rB", "rC"):
+                o4.register_runner_heartbeats([r], can_run_atomic_service=True)
+                clock.advance(1_000)
+            base = clock.us // 1_000_000 % 240
+            clock.advance((240 - base) * 1_000_000)
+            owner_at: list[str | None] = []
+            for sec in range(240):
+                auth = [r for r in ("rA", "rB", "rC") if o4.should_run_atomic_service(rctx(r))]
+                owner_at.append(auth[0] if len(auth) == 1 else ("+".join(auth) if auth else None))
+                clock.advance(1_000_000)
+                ctx.count()
+            gaps = []
+            last_owner, last_t = None, None
+            for sec, w in enumerate(owner_at):
+                if w is not None:
+                    if last_owner is not None and w != last_owner:
+                        gaps.append((sec - last_t, last_owner, w, last_t, sec))
+                    last_owner, last_t = w, sec
+            conf_margin = app4.conf.atomic_service_spread_margin_minutes
+            ctx.distinct((kind, "configured-margin", tuple(g[0] for g in gaps)))
+            small = [g for g in gaps if g[0] < 30]
+            if small or any(w and "+" in w for w in owner_at):
+                g = small[0] if small else None
+                ctx.report(f"margin-not-kept[{kind}]:configured-fraction", f"[{kind}] interval 4 min, margin configured 0.5 min (the application reads {conf_margin!r}), three runners, asked every second: "
+                                                                           + (f"{g[1]} is still authorised at +{g[3]} s and {g[2]} already at +{g[4]} s (gap {g[0]} s < 30 s)" if g else "two runners authorised at once"),
+                           {"kind": "system-margin", "backend": kind, "gaps": [x[0] for x in gaps]})
     finally:
         rb.time = real_time_mod
         clock.uninstall()
